@@ -182,7 +182,7 @@ PROPS = {
                 aspects=['hist:taintadds', 'hist:untaints', 'hist:resize', 'hist:delta'], monitors=['C06'],
                 theorems=['Esc.P.C06_bands', 'Esc.P.C06_triggers', 'Esc.P.C06_triggers_off', 'Esc.P.C06_taint_rate', 'Esc.P.C06_idle_band',
                           'Esc.P.C06_up_never_taints', 'Esc.P.C06_down_never_adds', 'Esc.P.taintLoop_count_all_ok',
-                          'Esc.P.C06_starve_iff', 'Esc.P.C06_starve_scales_up', 'Esc.P.C06_float_bands', 'Esc.P.C06_rne64_bands', 'Esc.P.C06_decision_exact', 'Esc.P.C06_up_never_removes', 'Esc.P.C06_up_shape', 'Esc.P.C06_taint_walks_on', 'Esc.P.gen_calcPercentUsage_eq', 'Esc.P.gen_calcScaleUpDelta_vals', 'Esc.P.gen_bandSwitch_vals', 'Esc.P.gen_bandSwitch_sentinel', 'Esc.P.C06_source_bands', 'Esc.P.gen_decide_translation_complete', 'Esc.P.gen_taintClamp_eq', 'Esc.P.C03_source_clamp', 'Esc.P.gen_isScaleOnStarve_eq', 'Esc.P.gen_scaleOnMaxNodeAge_eq', 'Esc.P.C06_source_triggers_off', 'Esc.P.gen_triggers_translation_complete', 'Esc.P.taintStep_spec', 'Esc.P.C06_source_taint_at_most_n', 'Esc.P.C06_source_taint_exact', 'Esc.P.gen_loops_translation_complete', 'Esc.P.gen_taintLoop_count_eq'],
+                          'Esc.P.C06_starve_iff', 'Esc.P.C06_starve_scales_up', 'Esc.P.C06_float_bands', 'Esc.P.C06_rne64_bands', 'Esc.P.C06_decision_exact', 'Esc.P.C06_up_never_removes', 'Esc.P.C06_up_shape', 'Esc.P.C06_taint_walks_on', 'Esc.P.gen_calcPercentUsage_eq', 'Esc.P.gen_calcScaleUpDelta_vals', 'Esc.P.gen_bandSwitch_vals', 'Esc.P.gen_bandSwitch_sentinel', 'Esc.P.C06_source_bands', 'Esc.P.gen_decide_translation_complete', 'Esc.P.gen_taintClamp_eq', 'Esc.P.C03_source_clamp', 'Esc.P.gen_isScaleOnStarve_eq', 'Esc.P.gen_scaleOnMaxNodeAge_eq', 'Esc.P.C06_source_triggers_off', 'Esc.P.gen_triggers_translation_complete', 'Esc.P.taintStep_spec', 'Esc.P.C06_source_taint_at_most_n', 'Esc.P.C06_source_taint_exact', 'Esc.P.C06_source_taint_exact_failures', 'Esc.P.gen_loops_translation_complete', 'Esc.P.gen_taintLoop_count_eq'],
                 technique='Lean 4 theorem (band case analysis for any rounding function; exact taint count when no attempt fails; journal shape of the idle and scale-up branches) + differential correspondence at threshold neighbourhoods + exact-rational band oracle and documented-starve oracle as monitors',
                 level_text='C06_bands: the decision is -fast / -slow / 0 / scale-up formula according to where max(cpu%,mem%) (as computed) lies relative to the three thresholds (as converted), for every rounding function; C06_taint_rate: exactly min(rate, untainted - min) nodes are tainted when no attempt fails; '
                            'C06_idle_band: decision 0 yields only reaping; C06_up_never_taints; C06_triggers: starve / max-age only raise the decision to >= 1; C06_starve_iff: the starve trigger computed from the largest-pending / largest-available digests is exactly the documented condition (option on, some pending pod asks in CPU or memory for more than any untainted node has left, untainted < max_nodes), so C06_starve_scales_up: under that condition the decision is >= 1 in every band. C06_float_bands / C06_rne64_bands: for every rounding function obeying the standard model with u <= 2^-43 (binary64: 2^-53, proved for the executed rne64) the band decision is the one the EXACT utilisation max(100Rc/Cc, 100Rm/Cm) dictates whenever it is outside a relative neighbourhood of 2^-40 of a threshold; inside that neighbourhood either side is accepted (monitor likewise). '
@@ -195,7 +195,7 @@ PROPS = {
                              search=[('awsops', ['-n', 20000]), ('hist', ['-n', 1500, '-scans', 12, '-focus', 'up']), ('hist', ['-n', 32, '-scans', 6, '-focus', 'up', '-slow']), ('fleetops', ['-n', 300]), ('hist', ['-n', 40, '-scans', 8, '-focus', 'fleet'])]),
                 aspects=['hist:untaints', 'hist:resize', 'hist:gets', 'hist:pre', 'cached-desired', 'journal'], monitors=['C07'],
                 theorems=['Esc.P.C07_order', 'Esc.P.C07_remainder', 'Esc.P.C07_on_top', 'Esc.untaintLoop_spec', 'Esc.P.tryDelete_desired', 'Esc.orderBy_pairwise',
-                          'Esc.P.runOnce_fresh', 'Esc.P.C07_fresh_history', 'Esc.P.C07_on_top_of_reported', 'Esc.P.C07_source_remainder', 'Esc.P.gen_scaleUp_remainder_eq', 'Esc.P.gen_scaleUp_translation_complete', 'Esc.P.untaintStep_spec', 'Esc.P.C07_source_untaint_at_most_n', 'Esc.P.gen_loops_translation_complete', 'Esc.P.gen_untaintLoop_count_eq'],
+                          'Esc.P.runOnce_fresh', 'Esc.P.C07_fresh_history', 'Esc.P.C07_on_top_of_reported', 'Esc.P.C07_source_remainder', 'Esc.P.gen_scaleUp_remainder_eq', 'Esc.P.gen_scaleUp_translation_complete', 'Esc.P.untaintStep_spec', 'Esc.P.C07_source_untaint_at_most_n', 'Esc.P.C07_source_untaint_exact', 'Esc.P.gen_loops_translation_complete', 'Esc.P.gen_untaintLoop_count_eq'],
                 technique='Lean 4 theorem (untaint loop attempts a newest-first prefix; count/remainder accounting of ScaleUp; exact SetDesiredCapacity value on the cached desired size, which follows accepted terminations) + differential correspondence incl. the provider cache after multi-node deletions + monitors',
                 level_text='C07_order: any tainted node not attempted is not strictly newer than an attempted one (all tie-breaks, all failing writes); C07_remainder: reported untaints <= N, the cloud is asked only if every tainted node was attempted, and then for the remainder N - untainted clamped to the bound, >= 1; '
                            'C07_on_top + tryDelete_desired: SetDesiredCapacity = cached desired + amount, the cached desired having been decremented once per accepted termination of the same scan. Tie: hist (up-focused: tainted nodes + high load + force removals) and awsops (cached desired after DeleteNodes); '
@@ -395,14 +395,14 @@ GLOBAL_ASPECTS = {'outcome'}
 # Round 3: what the regenerated ties (Tie B, DESIGN.md section 0 "Round 3") add to each claim. Appended to the level text.
 SOURCE_NOTES = {
     'C14': 'Tie B (node_group.go, the three filter constructors as translated): gen_podDefaultFilter_eq / C14_source_default, gen_nodeLabelFilter_eq, gen_podAffinityFilter_eq / C14_source_affinity (the skeleton; the loop over the affinity terms is recognised by its text as the pinned one).',
-    'C07': 'Tie B (scale_up.go ScaleUp, as translated with its two callees as parameters): C07_source_remainder — scaleUpCloudProviderNodeGroup is called iff untainting reported no error and left a positive remainder, and is handed exactly want - untainted; gen_scaleUp_remainder_eq: that is the remainder the model computes; C07_source_untaint_at_most_n — the translated loop of untaintNewestN, over any list of candidates and outcomes (induction), hands back at most N.',
+    'C07': 'Tie B (scale_up.go ScaleUp, as translated with its two callees as parameters): C07_source_remainder — scaleUpCloudProviderNodeGroup is called iff untainting reported no error and left a positive remainder, and is handed exactly want - untainted; gen_scaleUp_remainder_eq: that is the remainder the model computes; C07_source_untaint_at_most_n — the translated loop of untaintNewestN, over any list of candidates and outcomes (induction), hands back at most N; C07_source_untaint_exact — exactly min(N, candidates that can be handed back): untainted candidates and failed removals are walked past.',
     'C18': 'Tie B (scale_up.go ScaleUp): C18_source_lock_only_on_success — the cool-down lock is taken iff the cloud was asked and reported no error, with the number it reported; on an error ScaleUp returns it and takes no lock.',
     'C01': 'Tie B (regenerated from scale_down.go and taint.go on every run): gen_reaperCands_eq / gen_forceCands_eq — the loop bodies of the two reapers, as translated from the source, select exactly the model\'s candidates; C01_source_reaper: a candidate is handed on only if unprotected, its time readable, not dry, age > soft and (empty or age > hard); gen_taintTime_eq / C01_source_taint_time: a time is returned only for a parsable value within the years 1-9999.',
     'C02': 'Tie B (scale_lock.go): gen_lockLocked_eq / gen_lockUnlock_eq / gen_lockLock_eq — the three methods, as translated (unlock() spliced into locked()), are the model\'s; C02_source_lock: inside the cool-down locked() says yes and changes nothing, once it has elapsed it says no and leaves the lock released.',
     'C03': 'Tie B (scale_down.go): gen_taintClamp_eq; C03_source_clamp — the translated head of scaleDownTaint taints min(asked, untainted - min_nodes) and refuses iff fewer than min_nodes are untainted; C06_source_taint_at_most_n — the translated loop of taintOldestN, run over any list of outcomes (induction), never taints more than it was asked.',
     'C04': 'Tie B (scale_up.go): gen_clampedNodesToAdd_eq; C04_source_clamp — what the translated head of scaleUpCloudProviderNodeGroup goes on to request never exceeds min(max_nodes, cloud max), lands exactly on it when clamped, and is unchanged below it.',
     'C05': 'Tie B (util.go): gen_calcPercentUsage_eq, gen_calcScaleUpDelta_vals/_sentinel — the translated arithmetic equals the model for every rounding function; C05_source_in_region: run in binary64 it gives N <= n + delta <= N + 1 in the proven region.',
-    'C06': 'Tie B (controller.go, util.go, scale_down.go): gen_bandSwitch_vals/_sentinel, C06_source_bands — the translated switch decides -fast / -slow / 0 / scale-up by band; C03_source_clamp gives the taint amount min(rate, untainted - min_nodes); gen_isScaleOnStarve_eq / gen_scaleOnMaxNodeAge_eq: the two documented triggers, as translated, are the model\'s (C06_source_triggers_off: switched off, they never fire); C06_source_taint_exact — the translated taint loop taints exactly min(n, candidates) when the writes succeed, for lists of any length.',
+    'C06': 'Tie B (controller.go, util.go, scale_down.go): gen_bandSwitch_vals/_sentinel, C06_source_bands — the translated switch decides -fast / -slow / 0 / scale-up by band; C03_source_clamp gives the taint amount min(rate, untainted - min_nodes); gen_isScaleOnStarve_eq / gen_scaleOnMaxNodeAge_eq: the two documented triggers, as translated, are the model\'s (C06_source_triggers_off: switched off, they never fire); C06_source_taint_exact — the translated taint loop taints exactly min(n, candidates) when the writes succeed, for lists of any length; C06_source_taint_exact_failures — with failing writes exactly min(n, candidates whose write succeeds).',
     'C09': 'Tie B (controller.go filterNodes): gen_classifyNode_eq; C09_source_cordoned — outside dry mode a cordoned node goes to the cordoned list and to no other.',
     'C10': 'Tie B (scale_down.go): C01_source_reaper (a protected candidate is never handed on), C10_source_no_holdback (an eligible unprotected one is, whatever stands next to it: the verdict is per candidate).',
     'C11': 'The assembly of the program (cmd/main.go) is run in the built program (stream assemble, hook cmd/verif_hooks.go) against Esc.assemble: assemble_dry, assemble_dry_other_entries_irrelevant; main_wiring (regenerated facts about func main): the controller gets --drymode and the assembled groups, nothing else. Tie B: C01_source_reaper / gen_forceAppend_eq — neither reaper hands anything on in dry mode.',
